@@ -22,6 +22,7 @@ Not decided: the kernel's handling of IP_HDRINCL; the numerical Paris compensati
 import re
 
 from .common import *
+from ..tables import canon
 from .wire_cells import *
 
 LEVEL = 'other'
@@ -214,16 +215,49 @@ def run(chk, tier):
         if c.proto != 'Tcp':
             for o in c.dispatch_outs:
                 d = [(vshow(a), v) for a, v, _ in o.st.decisions]
-                g = [v for a, v in d if a.startswith('call:RangeInclusive::contains(') or a.startswith('in_range(')]
-                rng = [re.fullmatch(r'in_range\((.*), (\d+), (\d+)\)', a) for a, v in d if a.startswith('in_range(')]
+                # the size test may be written `(MIN..=MAX).contains(&size)` or as two comparisons: collect the bounds the trace established
+                # on the configured packet size, and whether it established that a bound is violated
+                lo_b = hi_b = None
+                violated = False
+                tested = False
+                want_lo, want_hi = (48 if c.fam == 'V6' else 28), prog.const_val('trippy_core::net::channel::MAX_PACKET_SIZE')
+                for a, v in d:
+                    m_ = re.fullmatch(r'in_range\((.*packet_size(?:\.0)?), (\d+), (\d+)\)', a)
+                    if m_:
+                        tested = True
+                        if v == 1:
+                            lo_b, hi_b = int(m_.group(2)), int(m_.group(3))
+                        elif (int(m_.group(2)), int(m_.group(3))) == (want_lo, want_hi):
+                            violated = True
+                        else:
+                            lo_b, hi_b = int(m_.group(2)), int(m_.group(3))      # wrong range: reported below
+                        continue
+                    if a.startswith('call:RangeInclusive::contains('):
+                        tested = True
+                        violated = violated or v == 0
+                        continue
+                    ca, cv = canon(a, v)
+                    m_ = re.fullmatch(r'Lt\((.*packet_size(?:\.0)?), (\d+)\)', ca)       # size < k
+                    if m_ and isinstance(cv, int):
+                        tested = True
+                        if cv == 0:
+                            lo_b = int(m_.group(2))
+                        elif int(m_.group(2)) == want_lo:
+                            violated = True
+                    m_ = re.fullmatch(r'Lt\((\d+), (.*packet_size(?:\.0)?)\)', ca)       # k < size
+                    if m_ and isinstance(cv, int):
+                        tested = True
+                        if cv == 0:
+                            hi_b = int(m_.group(1))
+                        elif int(m_.group(1)) == want_hi:
+                            violated = True
                 built = any(e[0] == 'pkt-new' for e in o.st.events)
-                if not g:
+                rejected = vshow(o.value) == 'Result::Err(Error::InvalidPacketSize(net.packet_size.0))'
+                if not tested:
                     bad4 = 'a trace does not test the packet size range'
-                elif rng and rng[0] and not (rng[0].group(1).endswith('packet_size.0') or rng[0].group(1).endswith('packet_size')):
-                    bad4 = 'the range test is applied to %s, not to the configured packet size' % rng[0].group(1)[:60]
-                elif rng and rng[0] and (int(rng[0].group(2)), int(rng[0].group(3))) != ((48 if c.fam == 'V6' else 28), prog.const_val('trippy_core::net::channel::MAX_PACKET_SIZE')):
-                    bad4 = 'the packet size is tested against %s..=%s; the headers need %d and the buffers hold MAX_PACKET_SIZE' % (rng[0].group(2), rng[0].group(3), 48 if c.fam == 'V6' else 28)
-                elif g[0] == 0 and (built or vshow(o.value) != 'Result::Err(Error::InvalidPacketSize(net.packet_size.0))'):
+                elif built and (lo_b, hi_b) != (want_lo, want_hi):
+                    bad4 = 'a packet is built on a trace that only established %s ≤ packet size ≤ %s; the headers need %d and the buffers hold %d' % (lo_b, hi_b, want_lo, want_hi)
+                elif violated and (built or not rejected):
                     bad4 = 'outside the allowed range the dispatch still builds a packet / does not return InvalidPacketSize'
             if bad4:
                 chk.fail('R4', 'cell%s:guard' % name, where, 'cell %s: %s' % (name, bad4), key='R4|%s|guard' % name)
